@@ -527,7 +527,11 @@ size_t ZSTD_seekable_decompress(ZSTD_seekable* zs, void* dst, size_t len, unsign
                 /* dummy decompressions until we get to the target offset */
                 outTmp = (ZSTD_outBuffer){zs->outBuff, (size_t) (MIN(SEEKABLE_BUFF_SIZE, offset - zs->decompressedOffset)), 0};
             } else {
-                outTmp = (ZSTD_outBuffer){dst, len, (size_t) (zs->decompressedOffset - offset)};
+                /* a frame never writes beyond its own end as recorded in the seek table : a (corrupted) frame that
+                 * regenerates more would otherwise fill the rest of dst, and the read would end without any checksum */
+                unsigned long long const frameEnd = zs->seekTable.entries[targetFrame + 1].dOffset;
+                size_t const limit = (size_t) MIN((unsigned long long)len, frameEnd - offset);
+                outTmp = (ZSTD_outBuffer){dst, limit, (size_t) (zs->decompressedOffset - offset)};
             }
 
             prevOutPos = outTmp.pos;
